@@ -150,6 +150,46 @@ def oracle_check(ctx, scripts, obs, sub="lockstep"):
     return out
 
 
+def judge_direct(ctx, scripts, evaluate, label, binp=None, stage_name=None):
+    """`judge` without the model comparison, for script families the oracle's network cannot express: run the scripts on
+    the implementation, attribute crashes, apply the direct oracle. Counted under coverage.direct_oracle_only."""
+    if binp is None:
+        binp, err = build(ctx)
+        if binp is None:
+            ctx.broken.append({"kind": "correspondence", "detail": "lock-step harness does not build against /repo/pipe", "log": err})
+            return []
+    obs, crashes = run_scripts(ctx, binp, scripts)
+    traces = []
+    for i, s in enumerate(scripts):
+        cfg = parse_cfg(s)
+        st = stage_name or (cfg.get("pkg", "pipe") + "." + cfg.get("stage", "?"))
+        if i in crashes:
+            txt = crashes[i]
+            cls = "deadlock" if "deadlock" in txt else ("panic" if "panic" in txt else "crash")
+            m = re.search(r"panic: ([^\n]*)", txt)
+            ctx.violations.append(vlib.Violation("impl", "%s (%s): the library crashed: %s" % (st, label, m.group(1) if m else cls), case=s,
+                                                 got=txt[-1500:], key={"stage": cfg.get("stage"), "pkg": cfg.get("pkg", "pipe"), "class": cls}))
+            traces.append(None)
+            continue
+        if obs[i] is None:
+            ctx.broken.append({"kind": "correspondence", "detail": "no observation for script", "case": s})
+            traces.append(None)
+            continue
+        tr = Trace(s, obs[i])
+        traces.append(tr)
+        if not tr.complete:
+            ctx.broken.append({"kind": "correspondence", "detail": "observation line does not match the script", "case": s, "impl": " ".join(obs[i])[:2000]})
+            continue
+        ctx.cov["direct_oracle_only"] = ctx.cov.get("direct_oracle_only", 0) + 1
+        ctx.hist("direct_oracle_only_family", label)
+        ctx.violations += evaluate(s, tr)
+        if i % 97 == 0:
+            ctx.sample({"script": s[:600], "observations": " ".join(obs[i])[:1500], "model": "not asked (direct oracle only)"}, limit=10)
+    if -1 in crashes:
+        ctx.broken.append({"kind": "correspondence", "detail": "harness failed: " + crashes[-1][-800:]})
+    return traces
+
+
 TOK = re.compile(r"^(.*?):([^\[:]*)\[([^\]]*)\]$")
 
 
